@@ -94,9 +94,10 @@ impl Expander {
         Expander { macros: BTreeMap::new() }
     }
     pub fn define(&mut self, name: &str, params: Option<Vec<String>>, body: &str) {
-        // bodies are expanded with the macros known so far (what both C's rescanning and an
-        // eager expander give as long as nothing used in the body is #undef'd before the use)
-        let b = self.expand_tokens(&lex(body.trim()), 0);
+        // ISO: the body is kept as written and rescanned at each use (so a parameter hides a
+        // macro of the same name, and a body may name a macro that is defined later).  An eager
+        // expander gives the same as long as nothing used in the body is #undef'd before the use
+        let b = lex(body.trim());
         self.macros.insert(name.to_string(), Macro { params, body: b });
     }
     pub fn undef(&mut self, name: &str) {
@@ -308,7 +309,7 @@ pub fn gen_case(idx: u64, large: bool) -> Case {
     for k in 0..nm {
         let values: Vec<&MacroDef> = macros.iter().filter(|m| m.is_value && m.params.is_none() && !undefined.contains(&m.name)).collect();
         let fns: Vec<&MacroDef> = macros.iter().filter(|m| m.params.is_some() && m.arity > 0 && m.is_value && !undefined.contains(&m.name)).collect();
-        let mut kind = if large { rng.below(4) } else { rng.below(13) };
+        let mut kind = if large { rng.below(4) } else { rng.below(15) };
         if large && [97usize, 98, 99, 100, 197, 198, 199, 200].contains(&k) && rng.chance(1, 2) {
             kind = 4 + rng.below(3); // a function-like macro right at a chunk boundary of the macro tables
         }
@@ -354,6 +355,22 @@ pub fn gen_case(idx: u64, large: bool) -> Case {
                 // object-like, although the body starts with a parenthesised identifier
                 desc.push("object-like body starting with (identifier)".into());
                 MacroDef { name, params: None, body: format!("(g{})+{}", rng.below(4), rng.below(9)), arity: 0, is_value: true }
+            }
+            13 if !values.is_empty() => {
+                // the parameter hides the macro of the same name inside this body
+                let u = rng.pick(&values).name.clone();
+                desc.push("parameter named like an earlier macro".into());
+                MacroDef { name, params: Some(vec![u.clone()]), body: format!("(({}) ^ {})", u, 1 + rng.below(6)), arity: 1, is_value: true }
+            }
+            14 => {
+                // the body names a macro that is only defined on the next line
+                let later = format!("{}L", name);
+                let v = rng.below(90);
+                desc.push("body names a macro defined later".into());
+                body_uses.push(later.clone());
+                lines.push(format!("#define {} ({} + {})", name, later, rng.below(9)));
+                macros.push(MacroDef { name: name.clone(), params: None, body: String::new(), arity: 0, is_value: true });
+                MacroDef { name: later, params: None, body: format!("{}", v), arity: 0, is_value: true }
             }
             10 => {
                 desc.push("## paste of two parameters".into());
@@ -610,6 +627,33 @@ pub fn c08_pins() -> Vec<(&'static str, Case)> {
                 src: "unsigned char g0, g1, g3;\n#define K2(a,b,c) ((a) - (b) + (c))\n#define K3(x) ((x) & 7)\nvoid main() { g3 = K3(K3(K2(g0, (g1 & (3 | 2)), g0))); }\n".into(),
                 cmdline: vec![],
                 desc: vec!["argument nested deeper than four parenthesis levels".into()],
+                nmacros: 2,
+            },
+        ),
+        (
+            "parameter_named_like_a_macro",
+            Case {
+                src: "unsigned char g0, g1;\n#define x 5\n#define F(x) ((x)+1)\n#define IS_X(x) ((x) == 'x')\nvoid main() { g0 = F(2); g1 = IS_X(120); }\n".into(),
+                cmdline: vec![],
+                desc: vec!["parameter named like an earlier macro".into()],
+                nmacros: 3,
+            },
+        ),
+        (
+            "body_names_a_later_macro",
+            Case {
+                src: "unsigned char g0, g1;\n#define FIRST SECOND\n#define TWICE(a) (SECOND + (a))\n#define SECOND 9\nvoid main() { g0 = FIRST; g1 = TWICE(FIRST); }\n".into(),
+                cmdline: vec![],
+                desc: vec!["body naming a macro defined later".into()],
+                nmacros: 3,
+            },
+        ),
+        (
+            "tab_after_define",
+            Case {
+                src: "unsigned char g0;\n#define\tSEVEN\t7\n#define\tINC(a)\t((a)+1)\nvoid main() { g0 = INC(SEVEN); }\n".into(),
+                cmdline: vec![],
+                desc: vec!["tab between #define and the name".into()],
                 nmacros: 2,
             },
         ),
